@@ -25,9 +25,9 @@ def _matches(f: Dict[str, Any], ev: Dict[str, Any], vec: Dict[str, Any], what: s
     if m.get("bound_only"):
         # every value that violates the chain is one of the two excluded bounds of the FIRST (base) in_range_open
         c0 = vec["chain"][0]
-        if c0["k"] != "in_range_open":
+        if c0["k"] not in ("in_range_open", "in_range_lo", "in_range_hi"):
             return False
-        bounds = {2 * c0["a"], 2 * c0["b"]}
+        bounds = ({2 * c0["a"]} if c0["k"] != "in_range_hi" else set()) | ({2 * c0["b"]} if c0["k"] != "in_range_lo" else set())
         ok = set(vec.get("gen") or [])
         if not all(r in ok or r in bounds or r == -99 for r in d.get("ranks", [])):
             return False
@@ -161,7 +161,7 @@ def strategies(run: Run, only: Dict[str, Any] | None = None) -> None:
 def _show(vec: Dict[str, Any]) -> str:
     if vec["kind"] == "strategy_str":
         return "[" + ", ".join(vec["chain"]) + "]"
-    return "[" + ", ".join("%s(c%d%s)" % (c["k"], c["a"], ",c%d" % c["b"] if c["k"] in ("in_range", "in_range_open", "isin", "notin") else "")
+    return "[" + ", ".join("%s(c%d%s)" % (c["k"], c["a"], ",c%d" % c["b"] if c["k"] in ("in_range", "in_range_open", "in_range_lo", "in_range_hi", "isin", "notin") else "")
                            for c in vec["chain"]) + "]"
 
 
